@@ -474,9 +474,25 @@ def _resolve_field_reference(field_reference, source_file_name, errors, ir):
     previous_field = ir_util.find_object_or_none(field_reference.path[0], ir)
     previous_reference = field_reference.path[0]
     for ref in field_reference.path[1:]:
+        aliases_followed = []
         while isinstance(previous_field, ir_data.Field) and ir_util.field_is_virtual(
             previous_field
         ):
+            if any(previous_field is alias for alias in aliases_followed):
+                # `let a = child.a`: the alias leads back to itself.
+                errors.append(
+                    [
+                        error.error(
+                            source_file_name,
+                            previous_reference.source_location,
+                            "Dependency cycle\n{} is an alias of itself".format(
+                                previous_reference.source_name[0].text
+                            ),
+                        )
+                    ]
+                )
+                return
+            aliases_followed.append(previous_field)
             if previous_field.read_transform.which_expression == "field_reference":
                 # Pass a separate error list into the recursive _resolve_field_reference
                 # call so that only one copy of the error for a particular reference
